@@ -8,21 +8,23 @@
    (Format/Enc) writes - this is what makes `pqref fmt_validate / fmt_decode` a VERIFIED independent
    reader rather than another implementation.
 
-   spec_roundtrip (DESIGN section 6) is proved at FILE level (C02_spec_roundtrip_partial): for every
-   well-formed laid-out file f (any number of row groups, columns, pages; v1/v2; optional/required; PLAIN,
-   dictionary indices of width <= 32 in any run mixture, RLE booleans, DELTA_BINARY_PACKED with any block
-   shape whose miniblocks hold a multiple of 8 values; any compressor satisfying the Section hypothesis)
-   dec_file (enc_file f) = table_of f and valid_file (enc_file f) = Valid.  It is named _partial for one
-   reason only: `footer_ok` - the encoder's own footer is representable in the compact protocol
-   (integers within their widths, nesting <= 64, footer < 4 GiB) AND conforms to the IDL table - is a
-   hypothesis (decidable; evaluated by fmt_validate on every file the encoder produces in the C03 run);
-   the conformance half should be a lemma and is not proved yet.                                     *)
+   spec_roundtrip (DESIGN section 6) is proved at FILE level (C02_spec_roundtrip): for every well-formed
+   laid-out file f (any number of row groups, columns, pages; v1/v2; optional/required; PLAIN, dictionary
+   indices of width <= 32 in any run mixture, RLE booleans, DELTA_BINARY_PACKED with any block shape whose
+   miniblocks hold a multiple of 8 values; any compressor satisfying the Section hypothesis)
+   dec_file (enc_file f) = table_of f and valid_file (enc_file f) = Valid.  The hypotheses besides the
+   layout's own consistency are representability conditions of the format itself: every integer the
+   encoder must write fits its declared width (page sizes in i32: phdr_wf; footer: wfb), nesting <= 64,
+   footer shorter than 4 GiB, and the logical types attached to the leaves conform to the IDL; that the
+   whole footer then conforms to the IDL is a theorem (conf_fmd).  C02_roundtrip_hypotheses_nonvacuous
+   shows a file satisfying all of them.  Not proved: that EVERY table has a layout (a one-page PLAIN
+   layout exists for every table; only instances are shown).                                          *)
 From Coq Require Import String.
-From Coq Require Import NArith ZArith List Bool Arith.
-From Pq Require Import Base.Bytes Base.ListX Codec.Hybrid Thrift.Compact Format.Phys Format.Meta Format.Page
+From Coq Require Import NArith ZArith List Bool Arith Lia.
+From Pq Require Import Base.Bytes Base.ListX Codec.Hybrid Thrift.Compact Thrift.Idl Thrift.IdlPinned Format.Phys Format.Meta Format.Page
   Format.ChunkLayout Format.File Format.Enc
   Proofs.ChunkLayoutProofs Proofs.HybridProofs Proofs.FormatCodecProofs Proofs.FormatPageProofs Proofs.FormatChunkProofs
-  Proofs.FormatMetaProofs Proofs.FormatFileProofs.
+  Proofs.FormatMetaProofs Proofs.FormatIdlProofs Proofs.FormatFileProofs.
 Import ListNotations.
 Open Scope list_scope.
 
@@ -136,10 +138,16 @@ Theorem C02_spec_chunk_metadata_valid :
 Proof. exact enc_chunk_check. Qed.
 Print Assumptions C02_spec_chunk_metadata_valid.
 
+(* the footer the encoder writes conforms to the IDL whenever the leaves' logical types do *)
+Theorem C02_spec_footer_conforms : forall m, Forall logical_ok (fm_schema m) ->
+  conforms pinned idl_opts (FStruct "FileMetaData") (fmd_to_tv m) = true.
+Proof. exact conf_fmd. Qed.
+Print Assumptions C02_spec_footer_conforms.
+
 (* FILE level.  lfile_wf = leaves well-typed, every row group has one well-formed chunk per leaf (pages
-   well-formed, page headers within i32), footer_ok; rg_strict = dictionary page first and alone, all
-   chunks of a row group have the same number of rows. *)
-Theorem C02_spec_roundtrip_partial :
+   well-formed, page headers within i32), footer_ok (representable, < 4 GiB, leaf logical types conformant);
+   rg_strict = dictionary page first and alone, all chunks of a row group have the same number of rows. *)
+Theorem C02_spec_roundtrip :
   forall (compress : Z -> bytes -> bytes) (decompress : Z -> N -> bytes -> option bytes),
   (forall codec b, decompress codec (lenN b) (compress codec b) = Some b) ->
   forall strict f t,
@@ -147,16 +155,16 @@ Theorem C02_spec_roundtrip_partial :
   dec_file decompress strict (enc_file compress f) = ROk t /\
   valid_file decompress strict (enc_file compress f) = ROk tt.
 Proof. exact spec_roundtrip. Qed.
-Print Assumptions C02_spec_roundtrip_partial.
+Print Assumptions C02_spec_roundtrip.
 
 (* decoding alone needs no strictness: a second dictionary page in a chunk, unequal row counts ... *)
-Theorem C02_spec_roundtrip_dec_partial :
+Theorem C02_spec_roundtrip_dec :
   forall (compress : Z -> bytes -> bytes) (decompress : Z -> N -> bytes -> option bytes),
   (forall codec b, decompress codec (lenN b) (compress codec b) = Some b) ->
   forall strict f t, lfile_wf compress f -> table_of f = Some t ->
   dec_file decompress strict (enc_file compress f) = ROk t.
 Proof. exact spec_roundtrip_dec. Qed.
-Print Assumptions C02_spec_roundtrip_dec_partial.
+Print Assumptions C02_spec_roundtrip_dec.
 
 (* ---------------- non-vacuity -------------------------------------------------------------------- *)
 Example C02_nonvacuous :
@@ -192,3 +200,28 @@ Example C02_file_nonvacuous :
      = option_map snd (table_of ex_file)
   /\ valid_file id_d true (enc_file id_c ex_file) = ROk tt.
 Proof. repeat split; vm_compute; reflexivity. Qed.
+
+(* the hypotheses of C02_spec_roundtrip are satisfiable: ex_file meets every one of them *)
+Ltac dec := first [exact I | reflexivity | vm_compute; first [reflexivity | discriminate | (intro; discriminate) | lia]].
+Ltac fa := repeat (first [apply Forall_cons | apply Forall_nil | apply Forall2_cons | apply Forall2_nil]).
+
+Example C02_roundtrip_hypotheses_nonvacuous : lfile_wf id_c ex_file /\ Forall rg_strict (l_rgs ex_file).
+Proof.
+  split; [split; [|split]|].
+  - (* leaves *) cbn [l_leaves ex_file]. fa; dec.
+  - (* row groups: one well-formed chunk per leaf *)
+    cbn [l_leaves l_rgs ex_file]. fa. split; [reflexivity|]. fa.
+    + split; [split|eexists; vm_compute; reflexivity]; cbn [lc_items]; fa.
+      * cbn [item_wf]. split.
+        -- right. cbn [desc_of cd_maxdef ll_optional lp_def lp_nvals]. repeat split; fa; try dec; split; fa; dec.
+        -- cbn [lp_store store_wf]. split; fa; dec.
+      * dec.
+    + split; [split|eexists; vm_compute; reflexivity]; cbn [lc_items]; fa.
+      * cbn [item_wf]. split; [left; reflexivity|fa; dec].
+      * cbn [item_wf]. split; [left; reflexivity|].
+        cbn [lp_store store_wf]. split; [right; reflexivity|]. repeat split; fa; try dec; split; fa; dec.
+      * dec.
+      * dec.
+  - (* footer *) repeat split; fa; dec.
+  - (* strict *) cbn [l_rgs ex_file]. fa; split; dec || (cbn [lc_items its_shape]; split; dec).
+Qed.
